@@ -166,9 +166,15 @@ def _check(prop, tier, seed, repo, vacuity=True, update_baseline=False):
             os.remove(os.path.join(BUILD, "replay", f))
     results, undecided = [], []
     fallback_wanted = []  # (reason, [harness names])
-    for unit in cfg.get("units", []):
+    units_ = cfg.get("units", [])
+    futures = {}
+    if len(units_) > 1 and cfg.get("parallel_units"):
+        from concurrent.futures import ThreadPoolExecutor
+        pool = ThreadPoolExecutor(max_workers=len(units_))
+        futures = {u: pool.submit(run_unit, u, repo, tier, vacuity) for u in units_}
+    for unit in units_:
         try:
-            r_ = run_unit(unit, repo, tier, vacuity=vacuity)
+            r_ = futures[unit].result() if unit in futures else run_unit(unit, repo, tier, vacuity=vacuity)
             results.append(r_)
             for fn_, why in r_["degraded"].items():
                 undecided.append("unit %s: %s could not be woven (%s): its contract is only ASSUMED in this run" % (unit, fn_, why))
@@ -338,7 +344,10 @@ def _check(prop, tier, seed, repo, vacuity=True, update_baseline=False):
         "wall_s": round(wall, 2),
         "violations": len(violations),
     }
-    json.dump(ev, open(os.path.join(EVID, prop + ".json"), "w"), indent=1)
+    # evidence of runs against a tree other than /repo (mutants, scratch worktrees) never overwrites the record
+    evdir = os.environ.get("VERIF_EVIDENCE_DIR") or (EVID if os.path.realpath(repo) == "/repo" else os.path.join(BUILD, "evidence-other"))
+    os.makedirs(evdir, exist_ok=True)
+    json.dump(ev, open(os.path.join(evdir, prop + ".json"), "w"), indent=1)
     if rc == 1:
         return 1
     if undecided:
@@ -356,9 +365,22 @@ def _rule_summary(log):
     return s
 
 
+_NATIVE_CACHE = {}
+
+
 def _try_cex(prop, cfg, v, repo):
     """look for a Kani cex harness attached to the failed obligation"""
     h = cfg.get("cex", {}).get(v["function"]) or cfg.get("cex", {}).get(v["function"].split("::")[-1])
+    if not h and cfg.get("native_cex"):
+        # a native oracle on the real code (run once per check, only now that an obligation has failed)
+        test = cfg["native_cex"]
+        if test not in _NATIVE_CACHE:
+            try:
+                import native_run
+                _NATIVE_CACHE[test] = native_run.find_cex(test, repo)
+            except Exception as e:  # noqa
+                _NATIVE_CACHE[test] = None
+        return _NATIVE_CACHE[test]
     if not h:
         return None
     try:
@@ -375,5 +397,8 @@ def replay(prop, path, repo):
     if not cex:
         print("no concrete input recorded (no-failing-input-found); verifier output follows:\n" + rep.get("verifier_output", ""))
         return 1
+    if cex.get("engine") == "native":
+        import native_run
+        return native_run.replay_cex(cex, repo)
     import kani_run
     return kani_run.replay_cex(cex, repo)
